@@ -71,6 +71,6 @@ class Ellipsoid(CenteredScatterer):
         """
         NOTE: Ellipsoid indicators does not currently apply rotations
         """
-        return Indicators(lambda point: ((point / self.r) ** 2).sum(-1) < 1,
-                          [[-self.r[0], self.r[0]], [-self.r[1], self.r[1]],
-                           [-self.r[2], self.r[2]]])
+        r = np.asarray(self.r, dtype=float)
+        return Indicators(lambda point: ((point / r) ** 2).sum(-1) < 1,
+                          [[-r[0], r[0]], [-r[1], r[1]], [-r[2], r[2]]])
